@@ -500,6 +500,9 @@ def _shallow_has_sym(args, kw):
 
 
 def rt_call(f, *args, **kw):
+    d = _BUILTIN_DISPATCH.get(f) if f.__class__ in _BUILTIN_KINDS else None
+    if d is not None:
+        return d(*args, **kw)
     if (args or kw) and _shallow_has_sym(args, kw) and _callee_is_native(f):
         eng = core.engine()
         args = tuple(eng.concretize(a) for a in args)
@@ -610,6 +613,10 @@ _RT_FUNCS = {
     rt_len, rt_repr, rt_fmt, rt_is, rt_is_not, rt_fstr, rt_mod, rt_call, rt_callm, rt_getitem, rt_any, rt_all, rt_enter,
 }
 
+_BUILTIN_DISPATCH = {int: rt_int, chr: rt_chr, ord: rt_ord, isinstance: rt_isinstance, issubclass: rt_issubclass, str: rt_str, bool: rt_bool, repr: rt_repr,
+                     type: rt_type, bytes: rt_bytes, any: rt_any, all: rt_all}
+_BUILTIN_KINDS = (type, type(len))
+
 RT_GLOBALS = {
     "_ms_in": rt_in,
     "_ms_is": rt_is,
@@ -622,13 +629,4 @@ RT_GLOBALS = {
     "_ms_getitem": rt_getitem,
     "_ms_mod": rt_mod,
     "_ms_enter": rt_enter,
-    "int": rt_int,
-    "chr": rt_chr,
-    "ord": rt_ord,
-    "isinstance": rt_isinstance,
-    "issubclass": rt_issubclass,
-    "str": rt_str,
-    "bool": rt_bool,
-    "repr": rt_repr,
-    "type": rt_type,
 }
